@@ -27,7 +27,6 @@ reproducible from its list of choices and the whole tree can be enumerated exhau
 from __future__ import annotations
 
 import asyncio
-import itertools
 import os
 import random
 import shutil
@@ -173,6 +172,7 @@ CATALOGUE = {
         # limit-specific shapes: a queued job of a late node behind new jobs of an earlier node
         S("chain3+b>split2", "a", "b", "c<a", "d<c", "e*2<b"),
         S("chain3+b>split3", "a", "b", "c<a", "d<c", "e*3<b"),
+        S("one+chain3+b>split3", "f", "a", "b", "c<a", "d<c", "e*3<b"),
         S("chain5", "a", "b<a", "c<b", "d<c", "e<d"),
         S("chain6", "a", "b<a", "c<b", "d<c", "e<d", "f<e"),
         S("split4>b", "a*4", "b<a"),
@@ -627,7 +627,8 @@ _PROC = {}
 
 
 def temp_root():
-    """one temp root per check run, created by the parent process (children inherit it by fork)"""
+    """one temp root per check run, created and removed by the check process; its spawned pool workers find it
+    through the environment variable VF_SCHED_ROOT and work in a sub-directory of their own"""
     inherited = os.environ.get("VF_SCHED_ROOT")
     if "root" not in _PROC and inherited and os.path.isdir(inherited):
         _PROC["root"] = Path(inherited)  # a spawned child of the check process; the parent owns and removes it
